@@ -120,6 +120,11 @@ def evaluate(case) -> Result:
                 res.v("C06/outbound/first-frame", f"frames after connect: {[f.brief() for f in conn.out]}")
                 return res
             check_ce_answer_content_cer(conn.out[0], c, res)
+        if case.get("others_ready"):
+            # the other configured peers are connected and ready: routing has alternatives to choose from
+            for i in range(1, c["peers"]):
+                w.handshake_in(f"peer{i + 1}.example", auth=sorted(auth) or [4], acct=sorted(acct), ip=f"10.1.1.{i + 1}", hbh=0x900 + i)
+            res.classes.append(f"other-peers-ready:{c['peers'] - 1}")
         ref = int(w.k.now)
         n_out = len(conn.refresh())
         n_req = 0
@@ -325,11 +330,16 @@ def probe_not_routable(w, res, direction):
     msg = CreditControlRequest()
     msg.destination_realm = W.NODE_REALM.encode()
     msg.header.end_to_end_identifier = 0x7001
+    under_test = w.node_conn_for(w.conns[0])
+    ready_states = w.mods["peer"].PEER_READY_STATES
     try:
-        w.node.route_request(app, msg)
-        res.v(f"C06/{direction}/gate/routable", "route_request returned a connection although no exchange has succeeded")
+        conn, _ = w.node.route_request(app, msg)
+        if conn is under_test or conn.state not in ready_states:
+            res.v(f"C06/{direction}/gate/routable", "route_request returned a connection whose exchange has not succeeded")
     except NotRoutable:
         pass
+    except Exception as e:
+        res.v(f"C06/{direction}/gate/route-request-raised", f"route_request raised {type(e).__name__}: {e}")
 
 
 def make_msg(s, hbh, conn, c):
@@ -388,6 +398,13 @@ def shard_main(shard, nshards, tier, scale):
                     jobs.append({"cfg": ci, "dir": "in", "syms": prefix + [f"{a}+{b}", "ADV1", "REQ"]})
                 for a in ("CEA_2001", "CEA_3xxx", "CEA_5xxx"):
                     jobs.append({"cfg": ci, "dir": "out", "syms": prefix + [f"{a}+{b}", "ADV1", "REQ"]})
+    for ci, cc in enumerate(CONFIGS):
+        if cc["peers"] >= 2 and cc["apps"]:
+            for direction, syms in (("in", SYMS_IN), ("out", SYMS_OUT)):
+                for d in (1, 2):
+                    for seq in itertools.product(syms, repeat=d):
+                        if valid_seq(direction, seq):
+                            jobs.append({"cfg": ci, "dir": direction, "syms": list(seq), "others_ready": True})
     if shard == 0:
         rec.extra["enumerated_histories"] = len(jobs)
     rec.extra["enumeration_depth"] = depth
@@ -413,7 +430,7 @@ def shard_main(shard, nshards, tier, scale):
                 s = s + "+" + draw(st.sampled_from(["DWR", "DWA", "DPR", "DPA", "REQ", "ANS"]))
             out.append(s)
         return {"cfg": draw(st.integers(0, len(CONFIGS) - 1)), "dir": direction, "syms": out,
-                "seed": draw(st.integers(0, 3))}
+                "seed": draw(st.integers(0, 3)), "others_ready": draw(st.booleans())}
 
     def body(case):
         res = evaluate(case)
@@ -430,7 +447,7 @@ def run(tier, scale=1.0):
         rec.merge(d)
     required = {"dir:in": 1, "dir:out": 1, "outcome:ready": 1, "outcome:3010": 1, "outcome:5010": 1,
                 "outcome:rejected": 1, "outcome:timeout": 1, "noise:True": 1, "len:6": 1,
-                "pipelined-behind-rejected-cer": 1, "pipelined-behind-rejected-cea": 1}
+                "other-peers-ready:2": 1, "pipelined-behind-rejected-cer": 1, "pipelined-behind-rejected-cea": 1}
     return finish(rec, tier=tier, level="exploration", rule=RULE, assumptions=ASSUME, t0=t0,
                   required_classes=required,
                   extra_cov={"exhaustive_part": "all symbol sequences up to the enumeration depth for 2 base configurations x 2 directions"})
